@@ -7,31 +7,68 @@ import (
 	"strings"
 )
 
-// relZ: Coq boolean for `a.Cmp(b) op k` (Sign(): b = 0).
+// relZ: Coq boolean for `a.Cmp(b) op k` (Sign(): b = 0).  Every spelling of the same
+// predicate is emitted in ONE canonical form built from <? and =? only (x.Cmp(y) >= 0,
+// x.Cmp(y) != -1 and !(x.Cmp(y) < 0) all become negb (x <? y)), so that re-spelling a
+// comparison in the Go source does not change the generated term (<?, =?, >? and their
+// negations: the forms the hand-written models use).
 func (t *tr) relZ(op token.Token, k, a, b string) string {
 	a, b = par(a), par(b)
-	pos := ""
 	switch k + " " + op.String() {
 	case "-1 ==", "0 <":
-		pos = a + " <? " + b
-	case "-1 !=":
+		return a + " <? " + b
+	case "-1 !=", "0 >=":
 		return "negb (" + a + " <? " + b + ")"
 	case "0 ==":
-		pos = a + " =? " + b
+		return a + " =? " + b
 	case "0 !=":
 		return "negb (" + a + " =? " + b + ")"
-	case "0 <=":
-		pos = a + " <=? " + b
 	case "0 >", "1 ==":
-		pos = a + " >? " + b
-	case "0 >=":
-		pos = a + " >=? " + b
-	case "1 !=":
+		return a + " >? " + b
+	case "0 <=", "1 !=":
 		return "negb (" + a + " >? " + b + ")"
 	default:
 		t.fail("unsupported comparison of a Cmp/Sign result: %s %s", op, k)
 	}
-	return pos
+	return ""
+}
+
+// stripNegb: for "negb (X)" / "negb X" with X one parenthesised or atomic term, X.
+func stripNegb(c string) (string, bool) {
+	if !strings.HasPrefix(c, "negb ") {
+		return "", false
+	}
+	x := strings.TrimSpace(c[5:])
+	if strings.HasPrefix(x, "(") {
+		depth := 0
+		for i, ch := range x {
+			if ch == '(' {
+				depth++
+			} else if ch == ')' {
+				depth--
+				if depth == 0 {
+					if i != len(x)-1 {
+						return "", false
+					}
+					return x[1 : len(x)-1], true
+				}
+			}
+		}
+		return "", false
+	}
+	if strings.ContainsAny(x, " \n") {
+		return "", false
+	}
+	return x, true
+}
+
+// ifExpr: `if c then a else b`, with a negated condition emitted as the swapped
+// conditional (if negb c then a else b = if c then b else a).
+func ifCond(c, a, b string) (string, string, string) {
+	if x, ok := stripNegb(c); ok {
+		return x, b, a
+	}
+	return c, a, b
 }
 
 func (t *tr) evalBinary(e *ast.BinaryExpr) *val {
